@@ -277,6 +277,31 @@ def pairsLegal (p : Pool) : List SPair → Prop
 end
 
 mutual
+/-- how many levels of `@` / `[` an element value nests below itself -/
+def SElem.nest : SElem → Nat
+  | .anno a => a.nest + 1
+  | .arr vs => elemsNest vs + 1
+  | _ => 0
+def SAnno.nest : SAnno → Nat
+  | .mk _ _ ps => pairsNest ps
+def SPair.nest : SPair → Nat
+  | .mk _ _ v => v.nest
+def elemsNest : List SElem → Nat
+  | [] => 0
+  | v :: r => max v.nest (elemsNest r)
+def pairsNest : List SPair → Nat
+  | [] => 0
+  | q :: r => max q.nest (pairsNest r)
+end
+
+/-- a top-level annotation inside the reader's domain: legal, and its element values nest at most
+`MAX_ELEMENT_VALUE_DEPTH = 255` levels (deeper ones are rejected on purpose, see `annotation_depth_limit_witness`) -/
+def SAnno.Ok (p : Pool) (a : SAnno) : Prop := a.Legal p ∧ a.nest ≤ 255
+
+/-- a top-level element value (`AnnotationDefault`) inside the reader's domain -/
+def SElem.Ok (p : Pool) (e : SElem) : Prop := e.Legal p ∧ e.nest ≤ 255
+
+mutual
 def SElem.fact : SElem → ElemVal
   | .const tag _ v => .const tag v
   | .str _ s => .str s
@@ -389,7 +414,7 @@ def SCodeTypeAnno.encode (pos : Nat → Nat) (a : SCodeTypeAnno) : Bytes :=
   encCodeTarget pos a.target ++ encTypePath a.path ++ a.anno.encode
 
 def SCodeTypeAnno.Legal (p : Pool) (n : Nat) (a : SCodeTypeAnno) : Prop :=
-  codeTargetOk n a.target ∧ typePathOk a.path ∧ a.anno.Legal p
+  codeTargetOk n a.target ∧ typePathOk a.path ∧ a.anno.Ok p
 
 def SCodeTypeAnno.fact (a : SCodeTypeAnno) : TypeAnno := ⟨a.target, a.path, a.anno.fact⟩
 
@@ -710,7 +735,7 @@ structure STypeAnno where
 
 def STypeAnno.encode (a : STypeAnno) : Bytes := encTarget a.target ++ encTypePath a.path ++ a.anno.encode
 
-def STypeAnno.Legal (p : Pool) (o : Owner) (a : STypeAnno) : Prop := targetOk o a.target ∧ typePathOk a.path ∧ a.anno.Legal p
+def STypeAnno.Legal (p : Pool) (o : Owner) (a : STypeAnno) : Prop := targetOk o a.target ∧ typePathOk a.path ∧ a.anno.Ok p
 
 def STypeAnno.fact (a : STypeAnno) : TypeAnno := ⟨a.target, a.path, a.anno.fact⟩
 
@@ -738,7 +763,7 @@ def classAttrNames : List JStr :=
 
 /-- a `Runtime(In)VisibleAnnotations` attribute: name, every annotation legal, body fits `attribute_length` -/
 def annosLegal (p : Pool) (nc : Nat) (visible : Bool) (as : List SAnno) : Prop :=
-  nc < 65536 ∧ p.getUtf8 nc = .ok (if visible then sRVA else sRIA) ∧ as.length < 65536 ∧ (∀ a ∈ as, a.Legal p) ∧
+  nc < 65536 ∧ p.getUtf8 nc = .ok (if visible then sRVA else sRIA) ∧ as.length < 65536 ∧ (∀ a ∈ as, a.Ok p) ∧
     (encAnnos as).length < 4294967296
 
 /-- field attributes of the proved fragment (`nc` = pool index of the attribute name) -/
@@ -850,7 +875,7 @@ def SMethodAttr.Legal (p : Pool) (bsms : Option (List Bsm)) : SMethodAttr → Pr
   | .signature nc cp sig => nc < 65536 ∧ p.getUtf8 nc = .ok sSignature ∧ cp < 65536 ∧ p.getUtf8 cp = .ok sig
   | .annotations nc visible as => annosLegal p nc visible as
   | .typeAnnotations nc visible as => typeAnnosLegal p .method nc visible as
-  | .annotationDefault nc e => nc < 65536 ∧ p.getUtf8 nc = .ok sAnnotationDefault ∧ e.Legal p ∧ e.encode.length < 4294967296
+  | .annotationDefault nc e => nc < 65536 ∧ p.getUtf8 nc = .ok sAnnotationDefault ∧ e.Ok p ∧ e.encode.length < 4294967296
   | .methodParameters nc ps => nc < 65536 ∧ p.getUtf8 nc = .ok sMethodParameters ∧ ps.length < 256 ∧
       ∀ q ∈ ps, q.1 < 65536 ∧ q.2.2 < 65536 ∧
         p.getOptional q.1 (fun p i => do let n ← p.getUtf8 i; checked validUnqualified n) = .ok q.2.1
